@@ -55,6 +55,11 @@ def ros_tree(rnd, depth=0):
             kids = ros_tree(rnd, depth + 1)
             if kids:
                 t.append({"row": [w], "kids": kids})
+                # neighbouring sections often hold the same sub-tree (`/ip firewall filter` and `/ipv6 firewall filter`)
+                twin = rnd.choice(["ipv6", "mpls", "queue"])
+                if rnd.random() < 0.3 and twin not in seen:
+                    seen.add(twin)
+                    t.append({"row": [twin], "kids": json.loads(json.dumps(kids))})
         elif depth > 0:
             row = [rnd.choice(["add", "set"]), rnd.choice(["a=1", "b=2", "name=x"])] + ([rnd.choice(["c=3", "disabled=yes"])] if rnd.random() < 0.5 else [])
             if tuple(row) in seen:
@@ -71,6 +76,20 @@ def cisco_af(t, rnd):
         if blk["kids"] is not None:
             blk["kids"] = [k for k in blk["kids"]] + [{"row": ["address-family", "ipv4"], "kids": [{"row": ["neighbor", "x"], "kids": []},
                                                                                                   {"row": ["exit-address-family"], "kids": []}]}]
+    return t
+
+
+def iosxr_qos(t, rnd):
+    """IOS-XR sub-domain: QoS blocks end with an `end-policy-map` / `end-class-map` row, which is an ordinary last child in annet's trees
+    (only `end-set`, `endif`, `end-policy` are terminators of the policy language)"""
+    if rnd.random() < 0.5:
+        t = list(t) + [{"row": ["policy-map", rnd.choice(["pm-in", "core"])], "kids": [
+            {"row": ["class", "c1"], "kids": [{"row": ["set", "dscp", "af11"], "kids": []}]},
+            {"row": ["class", "class-default"], "kids": []},
+            {"row": ["end-policy-map"], "kids": []}]}]
+    if rnd.random() < 0.3:
+        t = list(t) + [{"row": ["class-map", "match-any", "c1"], "kids": [{"row": ["match", "dscp", "af11"], "kids": []},
+                                                                          {"row": ["end-class-map"], "kids": []}]}]
     return t
 
 
@@ -138,7 +157,7 @@ def run(ctx):
                 continue
             tj = rnd_tree(rnd, 0, rnd.choice([2, 3, 4, 5]), 3)
             if v in ("cisco", "nexus", "iosxr") and rnd.random() < 0.3:
-                tj = cisco_af(tj, rnd) if v == "cisco" else tj
+                tj = cisco_af(tj, rnd) if v == "cisco" else (iosxr_qos(tj, rnd) if v == "iosxr" else tj)
             observe("rnd", v, tj)
     ctx.sample({"vendor": recs[3]["vendor"], "tree": recs[3]["t"], "text": recs[3].get("text")})
     slim = [{k: v for k, v in r.items() if k in ("id", "t", "t2", "fixed", "indent", "lines")} for r in recs]
